@@ -16,6 +16,7 @@
 //   console:  bool   add the console module; messages logged during the scan are returned in "logs"
 //   abort_at: k        callback returns Abort at its k-th event (1-based)
 //   timeout_at: j      the j-th timeout check fires (needs hook); count_checks: bool counts the checks
+//   timeout_once: bool only the j-th check fires (later ones do not), as the clock-based checker may do
 //
 // Result JSON:
 //   {"compile_error": "<text>"} or
@@ -292,6 +293,7 @@ pub fn scan_with(scanner: &Scanner, case: &Value) -> Value {
     } else {
         scanner
     };
+    boreal::scanner::verif_timeout::set_once(get_bool(case, "timeout_once"));
     boreal::scanner::verif_timeout::set(timeout_at, count_checks);
 
     let mut out = if api == "list" {
@@ -354,6 +356,7 @@ pub fn scan_with(scanner: &Scanner, case: &Value) -> Value {
         out["checks"] = json!(boreal::scanner::verif_timeout::checks());
     }
     boreal::scanner::verif_timeout::set(None, false);
+    boreal::scanner::verif_timeout::set_once(false);
     out
 }
 
